@@ -21,11 +21,12 @@ def clear (s : State) : State :=
   { s with stack := Array.replicate stackSize .nil, modules := #[], globals := .nil,
            steps := 0, trace := #[] }
 
-/-- vm.go `SetBytecode`: `vm.bytecode = bc; vm.constants = bc.Constants; vm.modulesCache = nil`.
-    (The stack, the frames and the globals are NOT touched.) -/
+/-- vm.go `SetBytecode` (repaired code): `vm.bytecode = bc; vm.constants = bc.Constants;
+    vm.modulesCache = nil; for i := range vm.stack { vm.stack[i] = nil }`.
+    (The frames and the globals are NOT touched.) -/
 def setBytecode (consts : Array V) (mainFn : Addr) (numModules : Nat) (s : State) : State :=
   { s with consts := consts, mainFn := mainFn, numModules := numModules, modules := #[],
-           steps := 0, trace := #[] }
+           stack := Array.replicate stackSize .nil, steps := 0, trace := #[] }
 
 /-- the observer starts a new H1 recording without resetting the VM (`Run` called again) -/
 def resetRecording (s : State) : State := { s with steps := 0, trace := #[] }
